@@ -180,6 +180,14 @@ def streams(rng, tier):
                                 vs = [list(g) for g in good]
                                 vs[j], vs[q] = first, bad
                                 faults.append(dict(base, value=["list", vs]))
+                    if wider is not None:
+                        for j in range(n):                          # None AND a promoting value in ONE valid write:
+                            for q in range(n):                      # the column must come out wider AND nullable
+                                if q != j:
+                                    vs = [list(g) for g in good]
+                                    vs[j], vs[q] = ["N"], wider
+                                    faults.append(dict(base, value=["list", vs]))
+                                    faults.append(dict(base, value=["list", vs], decl_null=True))
                     if k[0] in ("list", "tuple") and k[1] and k[1][0][0] == "i" or k[0] == "idxv":
                         for j in range(n):                          # an invalid index at every position
                             for badidx in (n, -n - 1):
